@@ -11,6 +11,19 @@ COMMON_NOTE = ("Trusted base: Coq 8.16.1 kernel + vm_compute (no native_compute,
                "modelled, not verified. ")
 
 CLAIMED = {
+ "C06": dict(
+  text="Axiom-free theorems about a hand model of AtomsCollection (coq/model/Coll.v) in which every array cell carries the id of the structure "
+       "it was created for: the alignment invariant (row k of every array belongs to structure k or is padding; counts agree) is preserved by "
+       "every operation and hence by EVERY finite history (induction over fold_left); selection order, concatenation with padding, "
+       "filter/classify order, the stable joint sort (one permutation, key column sorted) and chunk concatenation / chunk sizes are proved. "
+       "Tied to the code by correspondence on operation histories: every prefix of random histories (length 1-8, valid and malformed arguments, "
+       "0-12 structures, scalar/vector/string arrays, arrays present on one side only, sort-key ties) must give the same outcome class, "
+       "structure order and owner of every array row as the model evaluated by vm_compute; purity is checked by deep snapshots of operands.",
+  note="Purity is definitional in the model and only tested on the code. numpy fancy indexing, pickle and ase.Atoms copying are exercised, not "
+       "modelled. Sorting by an array containing padding (NaN) and row shape (1,) arrays are excluded from the generator. Known findings "
+       "C06-F06c1/F06c2 (empty-collection corner cases) are replayed each run; F-06a/F-06b were found by this check and repaired.",
+  technique="Coq proof (invariant by induction over operation histories, no axioms) of a hand model + differential correspondence on histories",
+  design="§8 C06"),
  "C03": dict(
   text="Axiom-free theorems over Z about a hand model of minimum_supcell/supcell_gridgen/minimum_periodic/all_periodic (coq/model/Lattice.v): "
        "the supercell box contains every lattice point in the sphere for any non-singular lattice, pbc mask and rational r^2 (Cauchy-Schwarz on the "
